@@ -1,12 +1,40 @@
 """Standard graph parts shared by the properties that ride on H-STORY / H-ITEM."""
-from ..harnesses import HStory, HItem
+from ..harnesses import HStory, HItem, HMixed
 
 
 # stories without timing metadata in front of, between and behind stories with it
 MIXED_TIMING = {'A': 'nometa', 'AB': 'dur', 'C': 'none', 'D': 'both', 'E': 'nometa', 'F': 'text'}
 
 
-def story_item_parts(tier, mon, *, timing_variants=True, small=False):
+def mixed_part(tier, mon):
+    """Histories that start with ANY message class (roReplace, roMetadataReplace, roStorySend, ...): every
+    message of all 24 classes in every state reached by one (thorough: two) earlier message(s)."""
+    if tier == 'quick':
+        return {'label': 'after-any-message-depth1', 'harness': HMixed(max_list=1, story_L=1, meta_subsets=1, layouts=('before',)),
+                'monitors': mon, 'opts': {'max_depth': 1}}
+    return {'label': 'after-any-message-depth1', 'harness': HMixed(max_list=2, story_L=2, meta_subsets=1), 'monitors': mon,
+            'opts': {'max_depth': 1, 'max_states': 20000}}
+
+
+def live_part(tier, mon, kinds=None):
+    """Two-message histories on ONE live object (no re-read between the messages): first message = up to k
+    resolvable messages of each of the 24 classes, second message = every message of `kinds`."""
+    from ..monitors import LiveSecondStep
+    from .. import spec
+    kinds = kinds or spec.ALL_KINDS
+    if tier == 'quick':
+        second = HMixed(max_list=1, story_L=1, meta_subsets=1, kinds=kinds)
+        first = HMixed(max_list=1, story_L=1, meta_subsets=1, layouts=('before',))
+        k = 1
+    else:
+        second = HMixed(max_list=2, story_L=2, meta_subsets=1, kinds=kinds)
+        first = HMixed(max_list=1, story_L=2, meta_subsets=2)
+        k = 3
+    return {'label': 'live-two-message-histories', 'harness': first, 'monitors': [LiveSecondStep(mon, second, first_per_kind=k)],
+            'opts': {'max_depth': 0}}
+
+
+def story_item_parts(tier, mon, *, timing_variants=True, small=False, mixed=True, live=True):
     if tier == 'quick':
         parts = [
             {'label': 'stories-pool4-cap3-L2' if small else 'stories-pool5-cap4-L2',
@@ -22,6 +50,10 @@ def story_item_parts(tier, mon, *, timing_variants=True, small=False):
         if timing_variants:
             parts.append({'label': 'stories-no-timing-metadata',
                           'harness': HStory(pool=4, cap=3, max_list=2, layouts=('before',), timing=MIXED_TIMING), 'monitors': mon})
+        if mixed:
+            parts.append(mixed_part(tier, mon))
+        if live:
+            parts.append(live_part(tier, mon))
     else:
         parts = [
             {'label': 'stories-pool6-cap5-L2', 'harness': HStory(pool=6, cap=5, max_list=2, layouts=('before', 'after', 'none')),
@@ -39,6 +71,10 @@ def story_item_parts(tier, mon, *, timing_variants=True, small=False):
                           'monitors': mon})
             parts.append({'label': 'items-no-timing-metadata',
                           'harness': HItem(pool=4, cap=3, max_list=2, patterns=('plain',), timing='nometa'), 'monitors': mon})
+        if mixed:
+            parts.append(mixed_part(tier, mon))
+        if live:
+            parts.append(live_part(tier, mon))
     return parts
 
 
